@@ -22,7 +22,7 @@ Definition ex_dom_ops : list op :=
    OAAdv 1 3 1 3 5 [1; 3]; OAAdv 2 3 1 3 2 [2; 3]].
 
 Definition dres (ops : list op) (name : string) : option (str * N) :=
-  match snd (step 0 (run 0 ops) (ODLookup (str_of name))) with
+  match snd (step 0 (@isort) (run 0 (@isort) ops) (ODLookup (str_of name))) with
   | FDom r => Some (dr_pattern (e_data r), e_metric r)
   | _ => None
   end.
@@ -33,11 +33,11 @@ Lemma domain_examples :
   dres ex_dom_ops "www.example.com" = Some (str_of "*.Example.com", 1) /\    (* one label above the base *)
   dres ex_dom_ops "a.www.example.com" = None /\                              (* two labels: no match *)
   dres ex_dom_ops "example.com" = None /\
-  (match snd (step 0 (run 0 ex_dom_ops) (OFLookup (str_of "web"))) with FFwd _ r => Some (e_data r, e_metric r) | _ => None end
+  (match snd (step 0 (@isort) (run 0 (@isort) ex_dom_ops) (OFLookup (str_of "web"))) with FFwd _ r => Some (e_data r, e_metric r) | _ => None end
      = Some (str_of "h:2", 2)) /\
-  (match snd (step 0 (run 0 ex_dom_ops) (OALookup 3)) with FAgent _ r => Some (e_nexthop r, e_metric r) | _ => None end
+  (match snd (step 0 (@isort) (run 0 (@isort) ex_dom_ops) (OALookup 3)) with FAgent _ r => Some (e_nexthop r, e_metric r) | _ => None end
      = Some (2, 2)) /\
-  snd (step 0 (run 0 ex_dom_ops) (OALookup 4)) = FNone.
+  snd (step 0 (@isort) (run 0 (@isort) ex_dom_ops) (OALookup 4)) = FNone.
 Proof. repeat split; vm_compute; reflexivity. Qed.
 
 (** C10: a history exercising every rule; the projection lists, per stored
@@ -57,11 +57,11 @@ Definition ex_rule_ops : list op :=
    OTick 1000].
 
 Lemma rule_examples :
-  cproj (run 0 ex_rule_ops) = [(0, 0, 0, 1, 0); (2, 3, 2, 1, 0); (1, 2, 3, 5, 0)] /\
+  cproj (run 0 (@isort) ex_rule_ops) = [(0, 0, 0, 1, 0); (2, 3, 2, 1, 0); (1, 2, 3, 5, 0)] /\
   (* cleanup with maxAge 999 ms at t = 1000 ms removes both learned routes, keeps the local one *)
-  cproj (run 0 (ex_rule_ops ++ [OClean 999])) = [(0, 0, 0, 1, 0)] /\
+  cproj (run 0 (@isort) (ex_rule_ops ++ [OClean 999])) = [(0, 0, 0, 1, 0)] /\
   (* maxAge 1000 ms: nothing is stale *)
-  cproj (run 0 (ex_rule_ops ++ [OClean 1000])) = cproj (run 0 ex_rule_ops) /\
+  cproj (run 0 (@isort) (ex_rule_ops ++ [OClean 1000])) = cproj (run 0 (@isort) ex_rule_ops) /\
   (* disconnect of peer 3 removes exactly the route learned through it *)
-  cproj (run 0 (ex_rule_ops ++ [ODisc 3])) = [(0, 0, 0, 1, 0); (1, 2, 3, 5, 0)].
+  cproj (run 0 (@isort) (ex_rule_ops ++ [ODisc 3])) = [(0, 0, 0, 1, 0); (1, 2, 3, 5, 0)].
 Proof. repeat split; vm_compute; reflexivity. Qed.
